@@ -300,6 +300,18 @@ func main() {
 		}
 	}
 
+	var rh hist
+	if o.LoadReplay(&rh) {
+		handle(rh, true)
+		files, err := cf.Write(o.Out, "C46")
+		if err != nil {
+			panic(err)
+		}
+		rep.CaseFiles = files
+		rep.ShardSize = 400
+		rep.Write(o.Out)
+		return
+	}
 	rnd := vh.NewRand(o.Seed)
 	for i := 0; i < o.N(400, 4000); i++ {
 		handle(genHist(rnd), true)
